@@ -11,7 +11,7 @@ import pysmt.operators as pop
 
 from vf import bp as B
 from vf.bp import BOOL, INT, REAL, STRING, BV, is_bv, is_arr, is_fun, show, subterms, const
-from vf.refsem import reftype, IllTyped
+from vf.refsem import reftype, IllTyped, all_symbols
 from vf.gen import G, Cfg
 from vf.harness import Run, Check, run_shards, derive_seed
 from vf import pys
@@ -206,6 +206,11 @@ class Builder(object):
         if self.route == "plain":
             return pys._build1(env, m, (o, params, ()), {}) if not ch else self._plain(bp, a)
         alt = r.random() < 0.6
+        if env.enable_infix_notation and r.random() < 0.3:
+            # the infix / method route builds the very same object
+            x = self._infix(o, params, a)
+            if x is not None:
+                return x
         if o in ("AND", "OR", "PLUS", "TIMES"):
             ctor = getattr(m, pys._NARY[o])
             k = r.randrange(3)
@@ -248,6 +253,60 @@ class Builder(object):
             if o == "ITE" and ch[0][0] == "LE" and a[0].is_le() and a[0].arg(0) is a[1] and a[0].arg(1) is a[2]:
                 return m.Min(a[1], a[2])
         return self._plain(bp, a)
+
+    def _infix(self, o, params, a):
+        r = self.rnd
+        two = len(a) == 2
+        if o == "LE" and two:
+            return (a[0] <= a[1]) if r.random() < 0.5 else (a[1] >= a[0])
+        if o == "LT" and two:
+            return (a[0] < a[1]) if r.random() < 0.5 else (a[1] > a[0])
+        if o in ("BV_ULE", "BV_ULT") and two:
+            if o == "BV_ULE":
+                return r.choice([lambda: a[0] <= a[1], lambda: a[1] >= a[0], lambda: a[0].BVULE(a[1]), lambda: a[1].BVUGE(a[0])])()
+            return r.choice([lambda: a[0] < a[1], lambda: a[1] > a[0], lambda: a[0].BVULT(a[1]), lambda: a[1].BVUGT(a[0])])()
+        if o in ("BV_SLE", "BV_SLT") and two:
+            if o == "BV_SLE":
+                return a[0].BVSLE(a[1]) if r.random() < 0.5 else a[1].BVSGE(a[0])
+            return a[0].BVSLT(a[1]) if r.random() < 0.5 else a[1].BVSGT(a[0])
+        table = {"PLUS": lambda: a[0] + a[1], "MINUS": lambda: a[0] - a[1], "TIMES": lambda: a[0] * a[1],
+                 "AND": lambda: r.choice([lambda: a[0] & a[1], lambda: a[0].And(a[1])])(),
+                 "OR": lambda: r.choice([lambda: a[0] | a[1], lambda: a[0].Or(a[1])])(),
+                 "IMPLIES": lambda: a[0].Implies(a[1]), "IFF": lambda: a[0].Iff(a[1]), "EQUALS": lambda: a[0].Equals(a[1]),
+                 "BV_AND": lambda: r.choice([lambda: a[0] & a[1], lambda: a[0].BVAnd(a[1])])(),
+                 "BV_OR": lambda: r.choice([lambda: a[0] | a[1], lambda: a[0].BVOr(a[1])])(),
+                 "BV_XOR": lambda: r.choice([lambda: a[0] ^ a[1], lambda: a[0].BVXor(a[1])])(),
+                 "BV_ADD": lambda: r.choice([lambda: a[0] + a[1], lambda: a[0].BVAdd(a[1])])(),
+                 "BV_SUB": lambda: r.choice([lambda: a[0] - a[1], lambda: a[0].BVSub(a[1])])(),
+                 "BV_MUL": lambda: r.choice([lambda: a[0] * a[1], lambda: a[0].BVMul(a[1])])(),
+                 "BV_UDIV": lambda: a[0].BVUDiv(a[1]), "BV_UREM": lambda: a[0].BVURem(a[1]),
+                 "BV_SDIV": lambda: a[0].BVSDiv(a[1]), "BV_SREM": lambda: a[0].BVSRem(a[1]),
+                 "BV_LSHL": lambda: a[0].BVLShl(a[1]), "BV_LSHR": lambda: a[0].BVLShr(a[1]), "BV_ASHR": lambda: a[0].BVAShr(a[1]),
+                 "BV_CONCAT": lambda: a[0].BVConcat(a[1]), "BV_COMP": lambda: a[0].BVComp(a[1]),
+                 "ARRAY_SELECT": lambda: a[0].Select(a[1])}
+        if o in table and two:
+            return table[o]()
+        if o == "NOT":
+            return ~a[0]
+        if o == "BV_NOT":
+            return ~a[0]
+        if o == "BV_NEG":
+            return -a[0]
+        if o == "ITE":
+            return a[0].Ite(a[1], a[2])
+        if o == "ARRAY_STORE":
+            return a[0].Store(a[1], a[2])
+        if o == "BV_EXTRACT":
+            return r.choice([lambda: a[0].BVExtract(params[0], params[1]), lambda: a[0][params[0]:params[1]]])()
+        if o == "BV_ZEXT":
+            return a[0].BVZExt(params[0])
+        if o == "BV_SEXT":
+            return a[0].BVSExt(params[0])
+        if o == "BV_ROL":
+            return a[0].BVRol(params[0])
+        if o == "BV_ROR":
+            return a[0].BVRor(params[0])
+        return None
 
     def _plain(self, bp, a):
         o, params, ch = bp
@@ -292,6 +351,8 @@ class Machine(RuleBasedStateMachine):
     def __init__(self):
         super().__init__()
         self.envs = [Environment(), Environment(), Environment()]   # sources 0,1 ; target 2
+        for e_ in self.envs:
+            e_.enable_infix_notation = True
         self.model = [dict(), dict(), dict()]      # key -> object
         self.rev = [dict(), dict(), dict()]        # id(object) -> key
         self.keep = []
@@ -508,6 +569,23 @@ class Machine(RuleBasedStateMachine):
                     self.fail("copy-not-in-target", case, "node %s of the copy of %s is not in the target manager" % (x, show(key)))
         for node, nb in memo.items():
             self.register(2, canon_arr(nb), node, "normalize")
+        # an environment in which one of the formula's names already has ANOTHER sort: there is no structurally
+        # identical copy, the attempt must be refused (never a copy over differently typed symbols)
+        syms = sorted(((n_, t_) for (n_, t_) in all_symbols(key) if not is_fun(t_)), key=repr)
+        if syms and rnd.random() < 0.3:
+            n_, t_ = syms[rnd.randrange(len(syms))]
+            other = REAL if t_ == INT else INT if t_ == REAL else INT
+            if other != t_:
+                envx = Environment()
+                with envx:
+                    envx.formula_manager.Symbol(n_, pys.to_ptype(envx, other))
+                    try:
+                        gx = envx.formula_manager.normalize(f)
+                    except Exception:
+                        self.run.cls("copy-refused:name-has-another-sort")
+                    else:
+                        self.fail("copy-over-conflicting-symbol", case,
+                                  "copy of %s into an environment where %r has sort %s: returned %s" % (show(key), n_, other, gx))
         with tgt:
             if tgt.formula_manager.normalize(f) is not g:
                 self.fail("copy-not-stable", case, "normalizing %s twice gives two objects" % show(key))
